@@ -102,6 +102,40 @@ class Walker:
 
 
     # ------------------------------------------------------------ state cover
+    # The numbering of the compiled machine's states depends on the compiler's hash seed and address layout; the
+    # cover inputs must not.  Everything below therefore works on a canonical order of states and transitions that
+    # is derived from the structure alone (Weisfeiler-Lehman style refinement of structural hashes, then a BFS from
+    # the start state along canonically sorted transitions).
+    def _canon(self):
+        if getattr(self, "_corder", None) is not None:
+            return
+        import hashlib
+        hs = lambda x: hashlib.sha1(repr(x).encode()).hexdigest()[:16]
+        tkey = lambda t: (tuple(str(v) for v in t["on"]), t["fall"], t["cond"], t.get("err", False), tuple(t.get("acts", ())))
+        n = len(self.states)
+        acc = set(self.dfa.get("accepting", ()))
+        H = [hs((st["cp"], i in acc, i == self.dfa.get("fail", -1), sorted(tkey(t) for t in st["tr"]))) for i, st in enumerate(self.states)]
+        for _ in range(16):
+            H = [hs((H[i], sorted((tkey(t), H[t["to"]] if 0 <= t["to"] < n else "-") for t in st["tr"]))) for i, st in enumerate(self.states)]
+        self._ctr = [sorted(st["tr"], key=lambda t: (tkey(t), H[t["to"]] if 0 <= t["to"] < n else "-")) for st in self.states]
+        order, seen = [], set()
+        queue = [self.dfa["start"]] if 0 <= self.dfa["start"] < n else []
+        seen.update(queue)
+        while queue:
+            x = queue.pop(0)
+            order.append(x)
+            for t in self._ctr[x]:
+                y = t["to"]
+                if 0 <= y < n and y not in seen:
+                    seen.add(y)
+                    queue.append(y)
+        order += sorted((i for i in range(n) if i not in seen), key=lambda i: H[i])
+        self._corder = {s_: k for k, s_ in enumerate(order)}
+
+    def _csort(self, states):
+        self._canon()
+        return sorted(states, key=lambda x: self._corder.get(x, 1 << 30))
+
     def _reps(self, t, rng):
         vals = [v for v in t["on"] if isinstance(v, int)]
         if not vals:
@@ -122,6 +156,7 @@ class Walker:
 
     def _succ_all(self, s, b):
         """all rough successors of s on byte b, exploring every branch of condition points."""
+        self._canon()
         out = set()
         stack = [(s, 0)]
         seen = set()
@@ -132,12 +167,12 @@ class Walker:
             seen.add((x, d > 0))
             st = self.states[x]
             if st["cp"]:
-                for t in st["tr"]:
+                for t in self._ctr[x]:
                     stack.append((t["to"], d + 1))
                 continue
             hit = None
             els = None
-            for t in st["tr"]:
+            for t in self._ctr[x]:
                 if b in t["on"]:
                     hit = t
                     break
@@ -154,16 +189,17 @@ class Walker:
 
     def shortest_paths(self, rng, limit=4096):
         """state -> one shortest byte string that (roughly) drives the machine into it."""
+        self._canon()
         start = self.dfa["start"]
         paths = {start: b""}
         frontier = [start]
         while frontier and len(paths) < limit:
             nxt = []
             for s in frontier:
-                cl = [x for x in sorted(self._closure(s)) if 0 <= x < len(self.states)]
+                cl = [x for x in self._csort(self._closure(s)) if 0 <= x < len(self.states)]
                 bs = []
                 for x in cl:
-                    for t in self.states[x]["tr"]:
+                    for t in self._ctr[x]:
                         bs.extend(self._reps(t, rng))
                 eb = self._else_byte(s, rng)
                 if eb is not None:
@@ -173,7 +209,7 @@ class Walker:
                     if b in seen_b:
                         continue
                     seen_b.add(b)
-                    for t2 in sorted(self._succ_all(s, b)):
+                    for t2 in self._csort(self._succ_all(s, b)):
                         if t2 not in paths:
                             paths[t2] = paths[s] + bytes([b])
                             nxt.append(t2)
@@ -189,7 +225,7 @@ class Walker:
         """
         paths = self.shortest_paths(rng)
         fail = self.dfa.get("fail", -1)
-        targets = [s for s in sorted(paths) if s != fail and len(paths[s]) < maxlen - 1]
+        targets = [s for s in self._csort(paths) if s != fail and len(paths[s]) < maxlen - 1]
         if not targets:
             return []
         rng.shuffle(targets)
@@ -215,14 +251,14 @@ class Walker:
                     b = rng.choice(allvals)
             x = bytearray(paths[s])
             x.append(b)
-            cur = next(iter(sorted(self._succ_all(s, b))), -1)
+            cur = next(iter(self._csort(self._succ_all(s, b))), -1)
             for _ in range(rng.randrange(0, 4)):
                 if cur < 0 or len(x) >= maxlen:
                     break
                 v2, _ = self.candidates(cur)
                 b2 = rng.choice(v2) if v2 and rng.random() < 0.8 else rng.choice(allvals)
                 x.append(b2)
-                cur = self.step(cur, b2, rng)
+                cur = next(iter(self._csort(self._succ_all(cur, b2))), -1)
             res.append(bytes(x[:maxlen]))
         return res
 
